@@ -485,6 +485,7 @@ enum Op {
     Gt,
     Or,
     And,
+    Mul,
     // N = 1 only
     Sub,
     Geq,
@@ -499,6 +500,7 @@ impl Op {
             Op::Gt => "compare_gt",
             Op::Or => "bool_or",
             Op::And => "bool_and_8_bit",
+            Op::Mul => "integer_mul",
             Op::Sub => "integer_sub",
             Op::Geq => "compare_geq",
             Op::SatSub => "integer_sat_sub",
@@ -532,6 +534,14 @@ impl Op {
             Op::SatSub => plain(xl, if x >= y { x.sub(y).0 } else { W::ZERO }),
             Op::Or => plain(xl, x.or(y)),
             Op::And => plain(xl, x.and(y)),
+            Op::Mul => {
+                // x is unsigned (xl bits), y is read in two's complement (yl bits); the product has xl + yl bits
+                let (xv, yv) = (x.lo, y.lo);
+                let bits = xl + yl;
+                let y_signed: i128 = if y.bit(yl - 1) { yv as i128 - (1i128 << yl) } else { yv as i128 };
+                let prod = (xv as i128).wrapping_mul(y_signed) as u128;
+                plain(bits, W::of(prod).trunc(bits))
+            }
             Op::Select => plain(xl, if c.bit(0) { x } else { y }),
         }
     }
@@ -644,6 +654,7 @@ where
         }
         Op::SatAdd => Ok((integer_sat_add::<_, DefaultBitStep, N>(ctx, rid, x, y).await?, none())),
         Op::Gt => Ok((BitDecomposed::new([compare_gt::<_, DefaultBitStep, N>(ctx, rid, x, y).await?]), none())),
+        Op::Mul => Ok((crate::protocol::ipa_prf::boolean_ops::verif_integer_mul::<_, DefaultBitStep, N>(ctx, rid, x, y).await?, none())),
         _ => bop_record::<C, N>(op, ctx, rid, x, y).await,
     }
 }
@@ -951,6 +962,32 @@ fn verif_c07_integer_add() {
 fn verif_c07_integer_sat_add() {
     let ex8 = vlib::env().thorough;
     run_cases("verif_c07_integer_sat_add", adder_like_cases(Op::SatAdd, ex8));
+}
+
+fn mul_cases() -> Vec<Case> {
+    let env = vlib::env();
+    let mut r = VRng::new(env.seed ^ 0x3a1, 7);
+    let mut cases = Vec::new();
+    // every operand pair for all width pairs up to 4 x 4 bits, plus 8 x 3, 3 x 8, 8 x 8 (thorough: all pairs; quick: boundary + seeded)
+    for mode in DZKP {
+        for xl in 1..=4usize {
+            for yl in 1..=4usize {
+                let pairs = all_pairs(xl, yl);
+                pack_cases(&mut cases, Op::Mul, mode, 256, xl, yl, &pairs, 16, "exhaustive<=4");
+            }
+        }
+        for (xl, yl) in [(8usize, 3usize), (3, 8), (8, 8), (6, 2), (2, 6), (16, 4), (5, 12)] {
+            let pairs = if env.thorough && xl + yl <= 16 { all_pairs(xl, yl) } else { boundary_pairs(xl, yl, &mut r, 3, env.pick(150, 1500)) };
+            pack_cases(&mut cases, Op::Mul, mode, 256, xl, yl, &pairs, 8, "unequal_and_wide");
+        }
+    }
+    cases
+}
+
+#[cfg(not(feature = "shuttle"))]
+#[test]
+fn verif_c07_integer_mul() {
+    run_cases("verif_c07_integer_mul", mul_cases());
 }
 
 #[cfg(not(feature = "shuttle"))]
